@@ -32,7 +32,7 @@ class Layout:
         base = None
         if 1 <= l <= self.b["argc"]:
             base = f"arg{l}"
-        elif depth < 12:
+        elif depth < 30:
             d = self.single(l)
             if d:
                 kind, r, bb, _ = d
